@@ -196,7 +196,10 @@ _ADD_LEVEL4 = {
     "C11": " Added: every attribute read from a matcher's public methods is bound along the constructor chain that building it runs.",
     "C12": " Added: a freshly constructed scorer's parameters are not overwritten after its constructor derived bounds from them.",
     "C15": " Added: no one-shot iterator kept as query state, no mutated mutable default argument.",
-    "C16": " Added: sibling-inferred cache invalidation (every mutator of what a cache is computed from resets it).",
+    "C16": " Added: sibling-inferred cache invalidation (every mutator of what a cache is computed from resets it); end-indexing of a "
+           "group being built is dominated by a non-emptiness test.",
+    "C08": " Added: every attribute a column type's public methods read is bound somewhere (a column type without a default raises on the "
+           "first segment that lacks the column).",
     "C18": " Added: attribute definedness for every writer front-end.",
 }
 for _k, _v in _ADD_LEVEL4.items():
